@@ -73,6 +73,8 @@ def _interp(ctx, cls: str, q: str, out: Scalings, depth: int, self_is_subject: b
         out.rebinds_by.append((n, short(q)))
     subject: Set[str] = {"self"} if self_is_subject else set()
     stackvars: Dict[str, Optional[List[str]]] = {}
+    frame_alias: Dict[str, str] = {}        # local bound to <stack>._stacked -> the stack variable
+    frame_ops: List[Tuple[str, ast.AST]] = []
     where = short(q)
 
     def is_subject(e) -> bool:
@@ -87,6 +89,12 @@ def _interp(ctx, cls: str, q: str, out: Scalings, depth: int, self_is_subject: b
         if ch is None and isinstance(tgt, ast.Subscript) and isinstance(tgt.value, ast.Name) and tgt.value.id in stackvars and \
                 isinstance(tgt.slice, ast.Constant):
             ch = [tgt.value.id, tgt.slice.value]
+        if ch is None and isinstance(tgt, ast.Subscript) and isinstance(tgt.value, ast.Name) and tgt.value.id in frame_alias and \
+                isinstance(tgt.slice, ast.Constant):
+            # a column of the stacked frame itself (frame = stack._stacked): the same column as the stack property, provided the
+            # frame is written back afterwards (checked at the end of the function)
+            ch = [frame_alias[tgt.value.id], tgt.slice.value]
+            frame_ops.append((frame_alias[tgt.value.id], st))
         if not ch or len(ch) < 2:
             return False
         base = ch[0]
@@ -139,6 +147,10 @@ def _interp(ctx, cls: str, q: str, out: Scalings, depth: int, self_is_subject: b
                     else:
                         _interp(ctx, cls, nxt, out, depth + 1)
                     subject.add(nm)
+                    continue
+                # frame = <stack>._stacked
+                if isinstance(v, ast.Attribute) and v.attr == "_stacked" and isinstance(v.value, ast.Name) and v.value.id in stackvars:
+                    frame_alias[nm] = v.value.id
                     continue
                 # stack = S.stack(...)
                 if isinstance(v, ast.Call) and call_name(v) == "stack" and isinstance(v.func, ast.Attribute) and is_subject(v.func.value):
@@ -219,3 +231,10 @@ def _interp(ctx, cls: str, q: str, out: Scalings, depth: int, self_is_subject: b
 
     # `osu = super(OsuMap, self.deepcopy()).rate(by)`: the receiver of super is already a copy
     run(fn.node.body, [], {})
+    # columns scaled on the stacked frame itself reach the lists only through the write-back: <stack>._update() after the last one
+    for sv in sorted({a for a, _ in frame_ops}):
+        last = max(st.lineno for a, st in frame_ops if a == sv)
+        upd = [n for n in walk_no_nested(fn.node) if isinstance(n, ast.Call) and call_name(n) == "_update" and
+               isinstance(n.func, ast.Attribute) and isinstance(n.func.value, ast.Name) and n.func.value.id == sv and n.lineno > last]
+        if not upd:
+            out.undecided.append(f"{where}: columns of '{sv}._stacked' are scaled but '{sv}._update()' does not follow: the lists keep their values")
